@@ -4,7 +4,7 @@ from ..core import gz, glist, gbool
 ID = "C27"
 PROPS = ["theories/Props/C27.vo"]
 PINNED = ["C27_errno_mapping", "C27_holds_outside", "C27_own_completion", "C27_call_spec",
-          "C27_refuted_timed_out_call_keeps_slot", "C27_refuted_coroutine_bad_fd_aborts"]
+          "C27_refuted_timed_out_call_keeps_slot", "C27_bad_fd_any_caller"]
 CASES_MODULE = "Cases.C27"
 HEADER = ""
 AREA = "uring"
@@ -20,8 +20,8 @@ RULE = ("cases of 1-4 callers (plain threads and coroutines of the event loop), 
         "without a closed peer or a receive time limit, a descriptor number that is not open, a memfd sealed against "
         "writing whose writes complete with exactly -1 = -EPERM), errno set to a sentinel before every call, payloads that differ "
         "per descriptor, and a script that starts the callers, feeds descriptors and releases threads "
-        "parked between slot registration and submission in a random order; plus the scenarios of the two recorded "
-        "findings; a case is non-trivial when at least two callers had calls in flight on different descriptors or a "
+        "parked between slot registration and submission in a random order; plus the scenarios of the recorded "
+        "finding; a case is non-trivial when at least two callers had calls in flight on different descriptors or a "
         "call ended with an error completion; distinct = distinct (descriptors, programs, script)")
 TRUSTED = ["Linux io_uring (SQPOLL) as the completion source: completion order is whatever the kernel does, it is not "
            "observed; the model takes it as an input and the theorem covers every order",
@@ -66,7 +66,7 @@ def gen_normal(rng, big=False):
         mine = []
         for _ in range(rng.randint(1, 3)):
             r = len(res)
-            kind = rng.choices(["pipe_r", "sock", "pipe_w", "closed", "sealed"], [34, 30, 14, 0 if co else 10, 14])[0]
+            kind = rng.choices(["pipe_r", "sock", "pipe_w", "closed", "sealed"], [34, 30, 14, 10, 14])[0]
             spec = {"kind": kind, "pre": 0, "eof": kind == "sealed", "limit_ms": 0}
             if kind in ("pipe_w", "sock") and rng.random() < 0.25:
                 spec["eof"] = True
@@ -233,8 +233,9 @@ def gen(rng, tier):
     cases = [gen_normal(rng, big=(tier != "quick" and i % 3 == 0)) for i in range(n)]
     cases += [gen_hold_window(rng) for _ in range(nh)]
     cases += [gen_busy(rng) for _ in range({"quick": 8, "thorough": 40, "search": 20}[tier])]
+    cases += [gen_defect(rng, "bad_fd") for _ in range(nd)]   # repaired: a normal case now
     for i in range(nd):
-        for w in ("abort_next", "stale_takes", "bad_fd"):
+        for w in ("abort_next", "stale_takes"):
             cases.append(gen_defect(rng, w))
     return cases
 
@@ -381,9 +382,10 @@ LEVEL_TEXT = ("Unbounded theorems about the Gallina model of the io_uring call p
               "normally, every call handed back the answer of its own request - the next bytes of its own descriptor's "
               "stream, its own error with the matching errno - and no byte a descriptor delivered is missing), "
               "C27_call_spec (what the oracle accepts for one call), C27_errno_mapping (negative completion -> -1 with "
-              "errno = -value, the completion value -1 = -EPERM included), and the refutation witnesses of the two recorded findings, which the theorem excludes "
-              "through no_defect (coroutine read on a socket with a receive time limit; coroutine call on a descriptor "
-              "number that is not open). The model is tied to the real runtime built with the io_uring feature on this "
+              "errno = -value, the completion value -1 = -EPERM included), C27_bad_fd_any_caller (a call on a descriptor number "
+              "that is not open: -1/EBADF for coroutine and thread callers alike), and the refutation witness of the "
+              "recorded finding, which the theorem excludes through no_defect (coroutine read on a socket with a receive "
+              "time limit). The model is tied to the real runtime built with the io_uring feature on this "
               "kernel: the same cases run as real threads and real coroutines of a real EventLoops making hooked "
               "read/recv/write/send calls, and per-call return value, errno and buffer bytes plus the per-descriptor "
               "leftovers are compared with the model inside Coq.")
@@ -395,8 +397,8 @@ LEVEL_NOTE = ("PARTIAL. Trusted: Coq kernel + vm_compute; hand-written model val
               "assumed (wf), not observed. Descriptors shared between callers, coroutines of foreign schedulers, "
               "coroutine migration between event loops, the other 20 io_uring-backed calls (same macros, not driven), "
               "the concurrent consumption of the completion queue by a second thread inside wait_just, memory safety of "
-              "the buffer a timed-out request still points to: not covered. The two findings timed_out_call_keeps_slot "
-              "and coroutine_bad_fd_aborts are recorded as known (refuted + holds_outside); three defects found here "
+              "the buffer a timed-out request still points to: not covered. The finding timed_out_call_keeps_slot is "
+              "recorded as known (refuted + holds_outside); coroutine_bad_fd_aborts and three more defects found here "
               "were repaired by fix: commits and the model describes the repaired code. No axioms (Print Assumptions: "
               "closed under the global context).")
 TECHNIQUE = ("machine-checked proof in Coq 8.16 about a hand-written Gallina model + differential correspondence against "
